@@ -17,6 +17,8 @@ mod iofault;
 mod crypt;
 mod abi;
 mod abicall;
+mod abitraits;
+mod abiuse;
 
 use std::collections::BTreeMap;
 use std::io::Write;
@@ -110,6 +112,54 @@ fn main() {
             for e in selected(&reg, &a) {
                 for &v in &e.versions {
                     writeln!(out, "(packed @{} {})\t(ok {})", e.name, v, (e.packed)(v)).unwrap();
+                }
+            }
+        }
+        // C09: calls through a connection vs direct calls
+        "abivals" => {
+            let mut stats: BTreeMap<String, u64> = BTreeMap::new();
+            let mut r = Rng::new(name_seed(a.seed, "abivals", 9));
+            let seed = r.next();
+            let cases = a.cases;
+            let report = isolated(|| {
+                let mut rr = Rng::new(seed);
+                abiuse::vals_cases(&mut rr, cases, 40).join("\n")
+            });
+            if report.starts_with("(abort") {
+                writeln!(out, "!C09 calls-abort-process seed={} got={}", seed, report).unwrap();
+            } else {
+                for l in report.split('\n') {
+                    if let Some(k) = l.strip_prefix("#stat ") {
+                        let (k, v) = k.rsplit_once(' ').unwrap();
+                        *stats.entry(k.to_string()).or_default() += v.parse::<u64>().unwrap();
+                    } else if !l.is_empty() {
+                        writeln!(out, "{}", l).unwrap();
+                    }
+                }
+            }
+            for (k, v) in stats {
+                writeln!(out, "#stat {} {}", k, v).unwrap();
+            }
+        }
+        // C16: the same from many threads
+        "abiconc" => {
+            let mut r = Rng::new(name_seed(a.seed, "abiconc", 16));
+            for round in 0..a.cases {
+                let seed = r.next();
+                let threads = 2 + (round % 7) * 2;
+                let report = if std::env::var("SFV_NO_ISOLATE").is_ok() {
+                    abiuse::conc_case(seed, threads, 30).join("\n")
+                } else {
+                    isolated(|| abiuse::conc_case(seed, threads, 30).join("\n"))
+                };
+                if report.starts_with("(abort") {
+                    writeln!(out, "!C16 concurrent-use-aborts-process seed={} threads={} got={}", seed, threads, report).unwrap();
+                    continue;
+                }
+                for l in report.split('\n') {
+                    if !l.is_empty() {
+                        writeln!(out, "{}", l).unwrap();
+                    }
                 }
             }
         }
